@@ -3,8 +3,10 @@ package props
 import (
 	"fmt"
 	"strings"
+	"time"
 
 	biscuit "github.com/biscuit-auth/biscuit-go/v2"
+	"github.com/biscuit-auth/biscuit-go/v2/datalog"
 
 	"verif/internal/hx"
 	"verif/internal/refdl"
@@ -165,7 +167,13 @@ func init() {
 				subs = keep
 			}
 			nt := int64(len(c18Tokens))
-			equiv := &sup.Space{Name: "restore-equivalence", Size: func(*sup.Ctx) int64 { return int64(len(subs)) * 2 * nt * nt }, Run: func(i int64, w *sup.W) {
+			equiv := &sup.Space{Name: "restore-equivalence", Size: func(*sup.Ctx) int64 { return int64(len(subs)) * 2 * nt * nt * 3 }, Run: func(i int64, w *sup.W) {
+				// run limits given when the authorizers are created: none binding / 3 facts / 1 iteration
+				lim := []biscuit.AuthorizerOption{hx.LongLimits,
+					biscuit.WithWorldOptions(datalog.WithMaxDuration(time.Hour), datalog.WithMaxFacts(3)),
+					biscuit.WithWorldOptions(datalog.WithMaxDuration(time.Hour), datalog.WithMaxIterations(1))}[i%3]
+				limName := []string{"default limits", "WithMaxFacts(3)", "WithMaxIterations(1)"}[i%3]
+				i /= 3
 				t2 := c18Tokens[i%nt]
 				i /= nt
 				t1 := c18Tokens[i%nt]
@@ -183,16 +191,16 @@ func init() {
 					w.Violate("C18:token-build-failed", t2.authority.String(), err.Error(), "a token")
 					return
 				}
-				human := fmt.Sprintf("content %s policies %v; snapshot taken on token(%s %v), restored for token(%s %v)", blk, pol, t1.authority, t1.blocks, t2.authority, t2.blocks)
+				human := fmt.Sprintf("content %s policies %v; snapshot taken on token(%s %v), restored for token(%s %v); authorizers created with %s", blk, pol, t1.authority, t1.blocks, t2.authority, t2.blocks, limName)
 				snap, err := c18Snapshot(tokA, blk, pol)
 				if err != nil {
 					w.Class("snapshot-refused")
 					w.Violate("C18:snapshot-of-unevaluated-authorizer-refused", human, err.Error(), "bytes")
 					return
 				}
-				direct, _ := biscuit.NewVerifier(tokB, hx.LongLimits)
+				direct, _ := biscuit.NewVerifier(tokB, lim)
 				hx.Load(direct, blk, pol)
-				restored, _ := biscuit.NewVerifier(tokB, hx.LongLimits)
+				restored, _ := biscuit.NewVerifier(tokB, lim)
 				if err := restored.LoadPolicies(snap); err != nil {
 					w.Class("load-failed")
 					w.Violate("C18:load-of-own-snapshot-failed", human, err.Error(), "nil")
@@ -210,7 +218,7 @@ func init() {
 					w.Violate("C18:snapshot-allowed-after-authorize", human, "bytes", "an error")
 					return
 				}
-				qa, _ := biscuit.NewVerifier(tokB, hx.LongLimits)
+				qa, _ := biscuit.NewVerifier(tokB, lim)
 				hx.Load(qa, blk, pol)
 				hx.QuerySet(qa, c18Panel[0])
 				if _, err := qa.SerializePolicies(); err == nil {
